@@ -171,6 +171,17 @@ def C10(run):
     run.assumptions += ["block numbers are passed to TLC as <<hi, lo>> pairs (32-bit integers)", "content compared as hex strings"]
 
 
+def _mc_reconnect(run):
+    # design level: Pipeline.tla with reconnections (client loses the connection at any moment, the chain moves on, it comes
+    # back with the cursor of its last message; PResume = resolveStartBlockNum): no bad message, client converges
+    q = run.tier == "quick"
+    run.model_check("MCReconnect", "MCReconnect.cfg" if q else "MCReconnect_thorough.cfg", workers=8, timeout=2400)
+    res = run.tlc("MCReconnect", "MCReconnect_reach.cfg", workers=2, timeout=300, expect_violation=True)   # vacuity guard
+    run.cov["design_level_forked_reconnection_reached"] = bool(res.get("invariant_violated"))
+    if not res.get("invariant_violated"):
+        raise vlib.Infra("MCReconnect never reaches a reconnection from an orphaned block (vacuous model)")
+
+
 def _st_forkresume(run, trf):
     def mutu(r):
         r["obs"]["resp"] = r["obs"]["resp"][1:]
@@ -202,6 +213,7 @@ def C12(run):
     # end to end: the client of a fork history reconnects through the REAL tier1 entry point with the cursor of a message it
     # received (preferably one whose block was orphaned afterwards): undo signal for the junction first, then the canonical
     # chain right after it (record "forkresume" of the forks driver, judged by ForkResumeFails of TraceSystem.tla)
+    _mc_reconnect(run)
     trf, _ = _system_trace(run, "C12:", "forks", n=(12 if q else 400))
     _st_forkresume(run, trf)
     run.cov["rule"] += (" Plus (forks driver) reconnections with the cursor of a delivered message of a fork history - orphaned or "
@@ -507,6 +519,7 @@ def C03(run):
     run.model_check("MCPipeline", "MCPipeline_safe.cfg" if q else "MCPipeline_thorough.cfg", workers=8, timeout=1800)
     res = run.tlc("MCPipeline", "MCPipeline_d11.cfg", workers=2, timeout=300, expect_violation=True)
     run.cov["design_level_open_finding_D11_reproduced"] = bool(res.get("invariant_violated"))
+    _mc_reconnect(run)
     # pipeline level: fork histories produced by the real bstream/forkable, through the real tier1 pipeline
     trf, _ = _system_trace(run, "C03:", "forks", n=(24 if q else 1500))
     if not q:
